@@ -34,6 +34,11 @@ TABLE = [
     ("fix-assert-tuple", [], "assert (1, 2)", [0, 1, 2, 3, 4, 5, 6, 7], False),
     ("remove-assertion-in-pytest-raises", ["import pytest"], "with pytest.raises(ValueError):\n    assert 1\n    assert 2", [0, 1, 2, 3, 4, 5, 6], False),
     ("remove-future-imports", [], "from __future__ import print_function", [0], False),
+    ("remove-future-imports", [], "from __future__ import annotations, print_function", [0], False),
+    ("remove-future-imports", [], "from __future__ import print_function, annotations", [0], False),
+    ("fix-assert-tuple", [], "assert (\n    y ==\n    1,\n    2\n)", [0, 1, 2, 3, 4, 5, 6], False),
+    ("fix-empty-sequence-comparison", [], "w = 1 + (y == [])", [0, 1, 2, 3, 4, 5, 6, 7], False),
+    ("fix-empty-sequence-comparison", [], "w = -(y != []) + (y == ())", [0, 1, 2, 3, 4, 5, 6, 7], False),
 ]
 
 
